@@ -66,6 +66,10 @@ func (c *Codec) decodeQuery(queryString url.Values, msg protoreflect.Message) er
 	}
 
 	for key, values := range queryString {
+		if len(values) == 0 {
+			// url.Values built by hand may hold a key without values
+			continue
+		}
 		prop, err := propertyAtPath(root, key)
 		if err != nil {
 			return err
